@@ -67,7 +67,11 @@ var c03Consts = [][2]string{
 	{"{:s 'sym2}", "{:s sym2}"}, {"(with-meta ['e '(throw 98)] {:m 1})", "[e (throw 98)]"}, {"(list [1 'sym1] {:a '(sym2)})", "([1 sym1] {:a (sym2)})"},
 }
 
-var c03Wraps = []string{"fn1", "fn2", "fn3", "m-id", "cond", "or", "and", "thread", "call1", "apply", "let-other", "visit", "visit", "defmacro-value"}
+var c03Wraps = []string{"fn1", "fn2", "fn3", "m-id", "cond", "or", "and", "thread", "call1", "apply", "let-other", "visit", "visit", "defmacro-value",
+	"update-cb", "update-in2-cb", "update-in3-cb", "map-cb", "swap-cb", "reduce-cb"}
+
+// callback wrappers: x is evaluated inside a function that a builtin calls back
+var c03CallbackWraps = map[string]bool{"visit": true, "update-cb": true, "update-in2-cb": true, "update-in3-cb": true, "map-cb": true, "swap-cb": true, "reduce-cb": true}
 
 // visitErr is what the harness builtin (visit f) returns when the lisp function it called back failed: a Go
 // error of its own that wraps the callback's error.
@@ -205,7 +209,8 @@ func (g *c03Gen) expr(depth int, inFin bool, inBody bool) *n3 {
 		return g.try(depth+1, inBody)
 	case 7:
 		n := &n3{Kind: "wrap", Wrap: c03Wraps[g.tp.Draw(LaneWork, len(c03Wraps))], Kids: []*n3{g.expr(depth+1, false, inBody)}}
-		if n.Wrap == "visit" && hasRawProbe(n.Kids[0]) {
+		if c03CallbackWraps[n.Wrap] && hasRawProbe(n.Kids[0]) {
+			// (a panic of a raw builtin crosses these builtins in ways of their own: not part of the statement)
 			n.Wrap = "call1"
 		}
 		return n
@@ -322,6 +327,18 @@ func (n *n3) render() string {
 			return "(let [other 1] " + x + ")"
 		case "visit":
 			return "(visit (fn [] " + x + "))"
+		case "update-cb":
+			return "(get (update {:k 1} :k (fn [v] " + x + ")) :k)"
+		case "update-in2-cb":
+			return "(get-in (update-in {:a {:b 1}} [:a :b] (fn [v] " + x + ")) [:a :b])"
+		case "update-in3-cb":
+			return "(get-in (update-in {:a {:b {:c 1}}} [:a :b :c] (fn [v] " + x + ")) [:a :b :c])"
+		case "map-cb":
+			return "(first (map (fn [v] " + x + ") [1]))"
+		case "swap-cb":
+			return "(swap! (atom 0) (fn [v] " + x + "))"
+		case "reduce-cb":
+			return "(reduce (fn [acc v] " + x + ") 0 [1])"
 		case "defmacro-value":
 			// x is evaluated as part of the value expression of a macro definition
 			return "(let [r9 (atom nil)] (do (defmacro mz9 (do (reset! r9 " + x + ") (fn [] nil))) (deref r9)))"
